@@ -643,6 +643,29 @@ func c07API(run *ev.Run, seed int64, count int, cs ev.Case) {
 				run.Violation("C07:api:"+a.spec+":field", fmt.Sprintf("high-level call returned wrong values for body %x: %v", enc, d), cs, nil)
 				return
 			}
+			// the same call answered (completion code 0) with a body below the layer's minimum:
+			// nothing at all, one byte, one byte short
+			if i%4 != 0 || sp.MinLen == 0 {
+				continue
+			}
+			for _, k := range []int{0, 1, sp.MinLen - 1} {
+				if k >= sp.MinLen || k > len(enc) || (k == 1 && sp.MinLen == 2) {
+					continue
+				}
+				body = enc[:k]
+				run.Eval(1)
+				pv, st := safe(func() { got, err = a.call() })
+				run.Nontrivial(fmt.Sprintf("api-short|%s|%d", a.spec, k))
+				if pv != nil {
+					run.Violation("C07:api:"+a.spec+":panic", fmt.Sprintf("%v\n%s", pv, trimStack(st)), cs, nil)
+					return
+				}
+				if err == nil {
+					run.Violation("C07:api:"+a.spec+":short-body-accepted", fmt.Sprintf("high-level call returned success (%+v) for a response body of %d bytes (%x); the layer's minimum is %d", got, k, body, sp.MinLen), cs, nil)
+					return
+				}
+				run.Event("short-bodies-through-the-api", 1)
+			}
 		}
 	}
 	_ = bmc.ValidateResponse
